@@ -132,6 +132,16 @@ Theorem C19_put_chars_linecount : forall xrow (pref post' reg : list N) cnt,
   length (text_lines (p_text c)) = cnt * count_nl reg + 1 /\ p_n c = Z.of_nat (cnt * count_nl reg + 1).
 Proof. exact put_chars_linecount. Qed.
 Print Assumptions C19_put_chars_linecount.
+(* the same on an EMPTY buffer (ln = "\n"; lbuf_edit clamps the replaced range to an insertion at 0; the screen is the first row,
+   drawn blank, over filler rows): the call vi_drawfix(0, 0, lncnt, 0) leaves the window of the lines that were put *)
+Theorem C19_site_put_chars_empty : forall (R : Type) (blank : R) (img : option (list N) -> R) (first : R) h (reg : list N) cnt,
+  1 <= h ->
+  let c := vc_put_chars 0 [] [10%N] reg cnt in
+  let buf' := text_lines (p_text c) in
+  put_screen R blank (fimg R (list N) img buf') 0 h c (win R (fun i => if i =? 0 then first else img None) 0 h)
+  = win R (fimg R (list N) img buf') 0 h.
+Proof. exact site_put_chars_empty. Qed.
+Print Assumptions C19_site_put_chars_empty.
 (* line-wise (the register ends with a newline), any count >= 1, also on the row just below the window and after the last line *)
 Theorem C19_site_put_lines_count : forall (R : Type) (blank : R) (img : option (list N) -> R) (buf : list (list N)) W h xrow
     (reg' : list N) cnt,
